@@ -199,6 +199,7 @@ impl Config {
         }
 
         // No more cases after this, there's no need to use an additional if as above
+        #[cfg_attr(kani, kani::loop_invariant(verif_proofs::adjust_inv(self.bytes_threshold, state.allocated_bytes())))] // verification hook (H3)
         while allocated <= ((self.bytes_threshold as f64) * self.adjustment_percent) {
             let new_threshold = self.bytes_threshold >> 1;
             if state.allocated_bytes() >= new_threshold {
@@ -219,3 +220,7 @@ impl Default for Config {
         Self::new()
     }
 }
+
+#[cfg(kani)]
+#[path = "/verif/kani/config_proofs.rs"]
+pub(crate) mod verif_proofs; // verification hook (H2): specs and contract harnesses live in /verif
